@@ -100,6 +100,8 @@ class FixedArray
     boost::shared_array<size_t> _indices; // non-NULL iff I'm a masked reference
     size_t                      _unmaskedLength;
 
+    template <class S> friend class FixedArray;
+
 
   public:
     typedef T   BaseType;
@@ -162,6 +164,22 @@ class FixedArray
         {
             throw std::logic_error("Fixed array stride must be positive");
         }
+        // nothing
+    }
+
+    // A view of one member of every element of 'owner' (V3fArray.x,
+    // Box3fArray.min, ...).  'member' is the address of that member in
+    // owner's first *unmasked* element, i.e. in
+    // owner.unchecked_direct_index(0), and 'stride' the distance between
+    // two consecutive unmasked elements in units of T.  The view selects
+    // the same elements as owner: if owner is a masked reference, so is
+    // the view.
+    template <class S>
+    FixedArray(T *member, size_t stride, FixedArray<S> &owner)
+        : _ptr(member), _length(owner._length), _stride(stride),
+          _writable(owner._writable), _handle(owner._handle),
+          _indices(owner._indices), _unmaskedLength(owner._unmaskedLength)
+    {
         // nothing
     }
 
